@@ -386,6 +386,13 @@ class HubRun:
 
     def snapshot(self):
         out = {}
+        if getattr(self, "track_lock", False):
+            # the hub's own lock file, when a program addresses it as an ordinary path (empty = version "c0")
+            try:
+                data = open(os.path.join(self.root, ".copia", "commit.lock"), "rb").read()
+                out[".copia/commit.lock"] = self.by_bytes.get(data, "torn" if data else "c0")
+            except OSError:
+                pass
         for dp, dn, fn in os.walk(self.root):
             if os.path.relpath(dp, self.root).startswith(".copia"):
                 continue
